@@ -217,3 +217,20 @@ def public_rebuild_batch(kind, trial, wd, desc, sec, psi, rng, norb, ne, what, t
             fails.append((kind, f"public batched calc_{what} runs (n_batch={nb})", {"norb": norb, "nelec": ne, "error": repr(ex)[:300]}))
             break
     return fails, evals
+
+
+# ---------------------------------------------------------------- GHF through the Lean single-determinant model
+def ghf_as_doubled(plain_ham, C, Wa, Wb):
+    """A GHF determinant is an ordinary determinant in the doubled (spin-orbital) space: orbitals C (2 norb x N),
+    walker diag(W_up, W_dn), one-body matrices diag(h_up, h_dn), Cholesky matrices diag(L, L).  The Lean model of a
+    single determinant with an empty second spin block (theorems of C01-C03 with k_b = 0) then IS the GHF model;
+    returns the protocol line (real orbitals: the code uses plain transposes for ghf)."""
+    norb = Wa.shape[0]
+    z = np.zeros((norb, norb))
+    L = np.asarray(plain_ham["chol"]).reshape(-1, norb, norb)
+    h = plain_ham["h1"]
+    so = {"h0": plain_ham["h0"], "h1": np.array([np.block([[h[0], z], [z, h[1]]])] * 2),
+          "chol": np.array([np.block([[l, z], [z, l]]) for l in L]).reshape(len(L), -1)}
+    Wso = np.block([[Wa, np.zeros((norb, Wb.shape[1]))], [np.zeros((norb, Wa.shape[1])), Wb]])
+    e = np.zeros((2 * norb, 0))
+    return sd_line_uhf(so, np.asarray(C), e, Wso, e)
